@@ -44,6 +44,12 @@ Theorem C12_binary_family_restores_input_outside_mask : Forall restoring binary_
 Proof. exact (all_restoring binary_progs binary_restore). Qed.
 Print Assumptions C12_binary_family_restores_input_outside_mask.
 
+(* regional_maximum with a full (2r+1)x(2r+1) structure of ANY size r (sparse structures such as the 4-connected
+   cross are covered by the two-run oracle only) *)
+Theorem C12_regional_maximum_any_square_structure : forall r, noninterfering (prog_regional_maximum_at r).
+Proof. exact (fun r => accepts_sound (prog_regional_maximum_at r) (regional_maximum_at_ok r)). Qed.
+Print Assumptions C12_regional_maximum_any_square_structure.
+
 (* the generated lists cover all 40 listed functions / all 15 binary ones *)
 Theorem C12_lists_complete : (length listed_progs, length binary_progs) = (40, 15)%nat.
 Proof. exact listed_count. Qed.
